@@ -48,6 +48,44 @@ theorem optMapM_eq_some_iff {β γ : Type} (f : β → Option γ) (l : List β) 
           simpa using this
         simp [optMapM, h0, hys]
 
+/-- characterisation of a successful forward transform -/
+theorem ros_eq_some_iff (c : Nat → Option Nat) (F : Nat → Option α → α → α) (row fs : List α) :
+    ros c F row = some fs ↔
+      fs.length = row.length ∧ ∀ i (_ : i < row.length), rosAt c F row i = fs[i]? := by
+  unfold ros
+  rw [optMapM_eq_some_iff]
+  simp only [List.length_range, List.getElem_range]
+
+/-- each component is defined when the structure is hierarchical -/
+theorem rosAt_some_of_hier (c : Nat → Option Nat) (F : Nat → Option α → α → α) (row : List α)
+    (hier : Hier c row.length) (i : Nat) (hi : i < row.length) :
+    ∃ g, readCond row (c i) = some g ∧ rosAt c F row i = some (F i g row[i]) := by
+  unfold rosAt
+  cases hc : c i with
+  | none => exact ⟨none, rfl, by simp [readCond, List.getElem?_eq_getElem hi]⟩
+  | some j =>
+    have hj := hier i j hi hc
+    have hjr : j < row.length := by omega
+    exact ⟨some row[j], by simp [readCond, hjr], by simp [readCond, hjr, List.getElem?_eq_getElem hi]⟩
+
+/-- a total function into `Option` that is `some` everywhere on a list has a result list -/
+theorem optMapM_isSome {β γ : Type} (f : β → Option γ) (l : List β)
+    (h : ∀ x ∈ l, ∃ y, f x = some y) : ∃ r, optMapM f l = some r := by
+  induction l with
+  | nil => exact ⟨[], rfl⟩
+  | cons a as ih =>
+    obtain ⟨y, hy⟩ := h a (by simp)
+    obtain ⟨ys, hys⟩ := ih (fun x hx => h x (by simp [hx]))
+    exact ⟨y :: ys, by simp [optMapM, hy, hys]⟩
+
+theorem ros_defined (c : Nat → Option Nat) (F : Nat → Option α → α → α) (row : List α)
+    (hier : Hier c row.length) : ∃ fs, ros c F row = some fs := by
+  unfold ros
+  apply optMapM_isSome
+  intro i hi
+  obtain ⟨g, _, h⟩ := rosAt_some_of_hier c F row hier i (List.mem_range.mp hi)
+  exact ⟨_, h⟩
+
 theorem readCond_append (row ext : List α) (o : Option Nat) (g : Option α)
     (h : readCond row o = some g) : readCond (row ++ ext) o = some g := by
   cases o with
